@@ -829,6 +829,14 @@ pub fn run_c18(args: &Args) -> i32 {
     }
     }
     // in-memory duplex transport: operation sequences on both ends against a bounded FIFO reference
+    // the lazy-handshake TLS streams (client and server side) before anything was read or written:
+    // flush / shutdown sequences; a shutdown that reports success must have reached the transport
+    let (tn, tviol) = lazy_tls_shutdown_sequences();
+    evals += tn;
+    per_adapter.push(json!({"adapter":"client / server TlsStream before the handshake (flush, shutdown only)", "sequences": tn}));
+    if let Some((sig, what, rp)) = tviol {
+        run.violation(sig, what, rp);
+    }
     let (dn, dclasses, dviol) = duplex_enumeration(if thorough { 6 } else { 5 });
     evals += dn;
     distinct += dclasses;
@@ -851,6 +859,72 @@ pub fn run_c18(args: &Args) -> i32 {
     run.assume("TcpStream/UnixStream wrappers: fixed sequential scripts over real socket pairs (supplementary, one-sided); their generic dispatch (Braid, TlsBraid, Stream) is covered over scripted and duplex inners");
     miri_stage_report(&mut run, "C18");
     run.finish()
+}
+
+// -------------------------------------------------------------------------------------------------
+// TLS streams before the handshake
+
+/// Every sequence of up to 3 steps over {flush, shutdown} x inner answers {Ok, Pending, Err} on a
+/// client-side and a server-side TLS stream on which no handshake has started. Nothing was written,
+/// so nothing may reach the wire; a flush may be a no-op; but a shutdown that returns Ok must have
+/// been carried out on the transport (end-of-stream is propagated), and the transport's Pending /
+/// error answers to it must come back.
+fn lazy_tls_shutdown_sequences() -> (u64, Option<(String, String, serde_json::Value)>) {
+    use crate::schedmc::tlsfix;
+    let (Ok(server_cfg), Ok(client_cfg)) = (tlsfix::server_config("examplecom", &[]), tlsfix::client_config(&[])) else {
+        return (0, Some(("tls-fixtures".into(), "TLS fixtures could not be loaded".into(), json!({"engine":"iomc-c18-tls"}))));
+    };
+    let client_cfg = std::sync::Arc::new(client_cfg);
+    let err = Ans::Err(io::ErrorKind::ConnectionReset);
+    let steps: Vec<Step> = [Ans::Ok, Ans::Pending, err].iter().flat_map(|a| [Step { op: Op::Flush, ans: *a }, Step { op: Op::Shutdown, ans: *a }]).collect();
+    let mut n = 0u64;
+    for side in ["client", "server"] {
+        for d in 1..=3usize {
+            for code in 0..steps.len().pow(d as u32) {
+                let seq = decode(code, d, &steps);
+                n += 1;
+                let sh = script(b"", false);
+                let mut subj: Box<dyn Subject> = if side == "client" {
+                    Box::new(TokioSubject(hyperdriver::client::conn::stream::TlsStream::new(Sio(sh.clone()), "example.com", client_cfg.clone())))
+                } else {
+                    let accept = tokio_rustls::TlsAcceptor::from(server_cfg.clone()).accept(Sio(sh.clone()));
+                    Box::new(TokioSubject(hyperdriver::server::conn::tls::TlsStream::new(accept)))
+                };
+                for (i, st) in seq.iter().enumerate() {
+                    {
+                        let mut s = sh.lock().unwrap();
+                        s.answers.clear();
+                        s.answers.push_back(st.ans);
+                    }
+                    let before = sh.lock().unwrap().calls.len();
+                    let seen = if st.op == Op::Flush { subj.flush() } else { subj.shutdown() };
+                    let s = sh.lock().unwrap();
+                    let calls = s.calls[before..].to_vec();
+                    let fail = |what: &str| {
+                        Some((
+                            format!("lazy-tls {side} {}", what.split(':').next().unwrap_or("")),
+                            format!("{side}-side TLS stream before its handshake, step {i} of {seq:?}: {what}; saw {seen:?}, transport calls {calls:?}"),
+                            json!({"engine":"iomc-c18-tls","side":side,"sequence":seq.iter().map(|s| format!("{s:?}")).collect::<Vec<_>>()}),
+                        ))
+                    };
+                    if !s.received.is_empty() {
+                        return (n, fail("bytes-invented: bytes reached the transport although nothing was written"));
+                    }
+                    if st.op == Op::Shutdown {
+                        let reached = calls.iter().any(|c| matches!(c, Call::Shutdown | Call::Pending("shutdown") | Call::Err("shutdown")));
+                        match (&seen, st.ans) {
+                            (Seen::Done, _) if !reached => return (n, fail("shutdown-not-propagated: shutdown reported success but never reached the transport")),
+                            (Seen::Done, Ans::Ok) => {}
+                            (Seen::Pending, Ans::Pending) | (Seen::Err(_), Ans::Err(_)) => {}
+                            (other, a) if reached => return (n, fail(&format!("shutdown-result-altered: the transport answered {a:?} but the caller saw {other:?}"))),
+                            _ => return (n, fail("shutdown-not-propagated: the transport was not asked to shut down")),
+                        }
+                    }
+                }
+            }
+        }
+    }
+    (n, None)
 }
 
 // -------------------------------------------------------------------------------------------------
